@@ -388,18 +388,6 @@ theorem ur_touchParent_get {t : Tree} (h : UrG (treeGet t)) (p : RelPath) :
 
 /-! ## type flags -/
 
-theorem Entry.not_typeX_of_symlink {e : Entry} (h : e.isSymlink = true) : e.isTypeX = false := by
-  have h' : e.typ = tSymlink := by simpa [Entry.isSymlink] using h
-  simp [Entry.isTypeX, h']; decide
-
-theorem Entry.not_typeX_of_dir {e : Entry} (h : e.isDir = true) : e.isTypeX = false := by
-  have h' : e.typ = tDir := by simpa [Entry.isDir] using h
-  simp [Entry.isTypeX, h']; decide
-
-theorem Entry.not_typeX_of_regular {e : Entry} (h : e.isRegular = true) : e.isTypeX = false := by
-  have h' : e.typ = tReg ∨ e.typ = tRegA := by simpa [Entry.isRegular] using h
-  rcases h' with h' | h' <;> simp [Entry.isTypeX, h'] <;> decide
-
 theorem Entry.not_regular_of_symlink {e : Entry} (h : e.isSymlink = true) : e.isRegular = false := by
   cases hr : e.isRegular with
   | false => rfl
@@ -1303,7 +1291,8 @@ theorem ur_unpackEntry_link {ln : Str} (hn : e.name ≠ []) (hi : newUnpackInfo 
     unpackEntry cwd allow priv dst st e body be = ({ fs := fs2, dirs := st.dirs }, none) := by
   unfold unpackEntry
   rw [if_neg hn]
-  simp only [hi, hm, hs, hrel, hv, hsl, if_true, Bool.not_true, Bool.false_eq_true, if_false]
+  simp only [hi, Entry.not_typeX_of_symlink hs, hm, hs, hrel, hv, hsl, if_true, Bool.not_true,
+    Bool.false_eq_true, if_false]
 
 theorem ur_unpackEntry_dir (hn : e.name ≠ []) (hi : newUnpackInfo st.fs dst e = some path)
     (hm : st.fs.mkdirAll nowT (mkdirAllFuel (pathDir path)) (pathDir path) 0o755 = (fs1, none))
@@ -1312,15 +1301,14 @@ theorem ur_unpackEntry_dir (hn : e.name ≠ []) (hi : newUnpackInfo st.fs dst e 
       ({ fs := fs2, dirs := st.dirs ++ [(path, e.mode, e.mtime)] }, none) := by
   unfold unpackEntry
   rw [if_neg hn]
-  simp only [hi, hm, Entry.not_symlink_of_dir hd, hd, hm2, if_true, Bool.false_eq_true, if_false]
+  simp only [hi, Entry.not_typeX_of_dir hd, hm, Entry.not_symlink_of_dir hd, hd, hm2, if_true,
+    Bool.false_eq_true, if_false]
 
-theorem ur_unpackEntry_other (hn : e.name ≠ []) (hi : newUnpackInfo st.fs dst e = some path)
-    (hm : st.fs.mkdirAll nowT (mkdirAllFuel (pathDir path)) (pathDir path) 0o755 = (fs1, none))
-    (hs : e.isSymlink = false) (hd : e.isDir = false) (hr : e.isRegular = false) :
-    unpackEntry cwd allow priv dst st e body be = ({ fs := fs1, dirs := st.dirs }, none) := by
-  unfold unpackEntry
-  rw [if_neg hn]
-  simp only [hi, hm, hs, hd, hr, Bool.not_false, if_true, Bool.false_eq_true, if_false]
+/-- an extended header record is skipped before anything is created -/
+theorem ur_unpackEntry_typeX (hn : e.name ≠ []) (hi : newUnpackInfo st.fs dst e = some path)
+    (hx : e.isTypeX = true) :
+    unpackEntry cwd allow priv dst st e body be = (st, none) :=
+  unpackEntry_typeX cwd allow priv dst st e body be path hn hx hi
 
 theorem ur_unpackEntry_reg {fs3 fs4 : FS} (hn : e.name ≠ []) (hi : newUnpackInfo st.fs dst e = some path)
     (hm : st.fs.mkdirAll nowT (mkdirAllFuel (pathDir path)) (pathDir path) 0o755 = (fs1, none))
@@ -1329,7 +1317,8 @@ theorem ur_unpackEntry_reg {fs3 fs4 : FS} (hn : e.name ≠ []) (hi : newUnpackIn
     unpackEntry cwd allow priv dst st e body false = ({ fs := fs4, dirs := st.dirs }, none) := by
   unfold unpackEntry
   rw [if_neg hn]
-  simp only [hi, hm, Entry.not_symlink_of_regular hr, Entry.not_dir_of_regular hr, hr,
+  simp only [hi, Entry.not_typeX_of_regular hr, hm, Entry.not_symlink_of_regular hr,
+    Entry.not_dir_of_regular hr, hr,
     Bool.not_true, Bool.false_eq_true, if_false]
   split
   · rename_i fs2' v heq
@@ -1396,7 +1385,8 @@ structure UrSim (dstP : PPath) (st : UState) (ust : UntarState) : Prop where
 structure UrEntryOK (dstP : PPath) (t : Tree) (e : Entry) : Prop where
   plain : dotdot ∉ splitOn '/' e.name
   depth : (dstP ++ entryRel e.name).length < resolveFuel
-  xflat : e.isTypeX = true → (entryRel e.name).length ≤ 1
+  xfree : e.isTypeX = true → ∀ q, q ≠ [] → q <+: (entryRel e.name).dropLast →
+    treeGet t q = none ∨ IsDir (treeGet t q)
   free : (e.isDir || e.isSymlink || e.isRegular) = true → ∀ q, q ≠ [] → q <+: (entryRel e.name).dropLast →
     treeGet t q = none ∨ IsDir (treeGet t q)
   kind : (e.isDir || e.isSymlink || e.isRegular) = true →
@@ -1432,21 +1422,6 @@ theorem urFill_fill {G : RelPath → Option Node} {r' r : RelPath} (h : r' <+: r
     · unfold urFill
       simp [hn, hq']
   · rw [urFill_of_bound (by rw [urFill_of_bound hn]; exact hn), urFill_of_bound hn, urFill_of_bound hn]
-
-theorem Entry.not_symlink_of_typeX {e : Entry} (h : e.isTypeX = true) : e.isSymlink = false := by
-  cases hs : e.isSymlink with
-  | false => rfl
-  | true => rw [Entry.not_typeX_of_symlink hs] at h; cases h
-
-theorem Entry.not_dir_of_typeX {e : Entry} (h : e.isTypeX = true) : e.isDir = false := by
-  cases hs : e.isDir with
-  | false => rfl
-  | true => rw [Entry.not_typeX_of_dir hs] at h; cases h
-
-theorem Entry.not_regular_of_typeX {e : Entry} (h : e.isTypeX = true) : e.isRegular = false := by
-  cases hs : e.isRegular with
-  | false => rfl
-  | true => rw [Entry.not_typeX_of_regular hs] at h; cases h
 
 theorem ur_untar_some_supported {st st' : UntarState} {e : Entry} (hn : e.name ≠ [])
     (h : untarEntry st e = some st') : e.supported = true := by
@@ -1490,18 +1465,15 @@ theorem ur_step {dstP : PPath} {cwd dst : Str} {priv : Bool} (hdst : DstOK dst) 
     rw [List.length_dropLast]; omega
   cases hX : e.isTypeX with
   | true =>
-    -- a pax header: accepted, nothing happens
-    have hlen := hok.xflat hX
-    have hdl0 : (entryRel e.name).dropLast = [] := by
-      apply List.eq_nil_of_length_eq_zero; rw [List.length_dropLast]; omega
-    have hi := ur_newUnpackInfo (fs := st.fs) hdst hok.plain hsup hok.depth hsim.real (by
-      rw [hdl0]; intro q hq; rw [List.prefix_nil.mp hq]; exact Or.inr hrootV)
-    have hm : st.fs.mkdirAll nowT (mkdirAllFuel (pathDir (ofSegs (pathSegs dst ++ entryRel e.name))))
-        (pathDir (ofSegs (pathSegs dst ++ entryRel e.name))) 0o755 = (st.fs, none) := by
-      rw [hpdl]
-      exact ur_mkdirAll_above hsim.real (ur_short_dir hlen) hNdl hdepdl _ _ _
-    refine ⟨_, ust, ur_unpackEntry_other hn hi hm (Entry.not_symlink_of_typeX hX) (Entry.not_dir_of_typeX hX)
-      (Entry.not_regular_of_typeX hX), ur_untar_typeX ust e hn hX, ?_⟩
+    -- a pax header: accepted (the `Lstat` walk of `NewUnpackInfo` runs for it too), nothing happens
+    have hfreeT : UrFree (treeGet ust.tree) (entryRel e.name).dropLast := by
+      intro q hq
+      by_cases hq0 : q = []
+      · rw [hq0]; exact Or.inr hsim.inv.root
+      · exact hok.xfree hX q hq0 hq
+    have hi := ur_newUnpackInfo (fs := st.fs) hdst hok.plain hsup hok.depth hsim.real
+      (ur_free_transfer hsim.get hrootV hfreeT)
+    refine ⟨st, ust, ur_unpackEntry_typeX hn hi hX, ur_untar_typeX ust e hn hX, ?_⟩
     exact ⟨hsim.real, hsim.get, hsim.inv, hsim.dirs, hsim.defd, hsim.defn⟩
   | false =>
     have hdsr : (e.isDir || e.isSymlink || e.isRegular) = true := by
